@@ -6,7 +6,8 @@ import Fcgi.Props.C11FilterAnysize
 
 Companion of `Props/Headline.lean`, `Props/HeadlineExtra.lean` and of the section "After the unbounded lift" of
 `HEADLINE_REVIEW.md`.  Every hypothesis of a headline conjunct that compares something with a NUMBER is listed
-here with its status.  Nothing here edits `Headline.lean` / `HeadlineExtra.lean`.
+here with its status (the writers conjuncts C07Clause13–16, added to the headline after this file was written, carry
+`wcostAll W + 20 ≤ 1000` / `fcost W + 20 ≤ 1000` and `+ |t.fl|` in `hfuel` — the same kind as section B's `hhf` / `hfuel`).  Nothing here edits `Headline.lean` / `HeadlineExtra.lean`.
 
 ## A. Removed here (artefacts of a PROOF, or of a bound already lifted elsewhere)
 
